@@ -208,10 +208,24 @@ func (w *Workspace) RootJournalPath() string {
 	return w.rootJournalPath
 }
 
+// GetResolved returns a snapshot of the resolved tree. The workspace mutates
+// its own tree (the Files map and FileOrder) under w.mu when files are updated;
+// handing out the live pointer would let request handlers and background
+// analyses read those maps while UpdateFile writes them. The journals
+// themselves are never modified after parsing and are shared.
 func (w *Workspace) GetResolved() *include.ResolvedJournal {
 	w.mu.RLock()
 	defer w.mu.RUnlock()
-	return w.resolved
+	if w.resolved == nil {
+		return nil
+	}
+	snapshot := include.NewResolvedJournal(w.resolved.Primary)
+	for path, journal := range w.resolved.Files {
+		snapshot.Files[path] = journal
+	}
+	snapshot.FileOrder = append([]string(nil), w.resolved.FileOrder...)
+	snapshot.Errors = append([]include.LoadError(nil), w.resolved.Errors...)
+	return snapshot
 }
 
 func (w *Workspace) IndexSnapshot() IndexSnapshot {
